@@ -7,6 +7,7 @@ import (
 	"io"
 	"math/big"
 	"reflect"
+	"sync"
 
 	"verif/harness/gen"
 	"verif/harness/mon"
@@ -25,6 +26,14 @@ func (c *countingReader) Read(p []byte) (int, error) {
 	n, err := c.r.Read(p)
 	c.n += int64(n)
 	return n, err
+}
+
+// exact returns a copy of b whose capacity equals its length: a library routine that reslices its argument
+// beyond len (buf[a:b] only checks the capacity) then panics instead of silently reading the allocator's padding.
+func exact(b []byte) []byte {
+	o := make([]byte, len(b))
+	copy(o, b)
+	return o[:len(b):len(b)]
 }
 
 func hx(b []byte) string {
@@ -126,12 +135,38 @@ func pointEntries(r *grp, s *slib) []entry {
 	return es
 }
 
-// judge runs every entry point on b and compares with the reference verdict.
-func judge(c *mon.Ctx, r *grp, s *slib, es []entry, b []byte, cls string) {
+// jobQueue collects the generated cases (generation is sequential and seeded); run judges them with a few
+// workers: the cases are independent and the reference caches are goroutine-safe.
+type jobQueue struct {
+	jobs []func()
+}
+
+func (q *jobQueue) run(workers int) {
+	var wg sync.WaitGroup
+	ch := make(chan func(), len(q.jobs))
+	for _, j := range q.jobs {
+		ch <- j
+	}
+	close(ch)
+	for w := 0; w < workers; w++ {
+		wg.Add(1)
+		go func() {
+			defer wg.Done()
+			for j := range ch {
+				j()
+			}
+		}()
+	}
+	wg.Wait()
+	q.jobs = nil
+}
+
+// judgeNow runs every entry point on b and compares with the reference verdict.
+func judgeNow(c *mon.Ctx, r *grp, s *slib, es []entry, b []byte, cls string) {
 	for _, e := range es {
 		vd := r.fm.Decode(b, e.sg)
 		key := func(kind string) string { return r.name + "/" + e.name + "/" + kind + "/" + cls }
-		in := append([]byte(nil), b...)
+		in := exact(b)
 		var o outcome
 		func() {
 			defer func() {
@@ -213,10 +248,7 @@ func chunkBE(v *big.Int, n int) ([]byte, bool) {
 func validPoints(c *mon.Ctx, r *grp, rng *gen.Rng) (pts []namedPt) {
 	C, F := r.fm.C, r.g.F
 	add := func(n string, p ocurve.Pt, sub bool) {
-		if sub {
-			r.fm.MarkSubgroup(p)
-			r.fm.MarkSubgroup(C.Neg(p))
-		}
+		r.fm.Learn(p, sub)
 		pts = append(pts, namedPt{n, p, sub})
 	}
 	G := r.g.G
@@ -255,12 +287,42 @@ func validPoints(c *mon.Ctx, r *grp, rng *gen.Rng) (pts []namedPt) {
 	if !c.Thorough() && d > 2 {
 		yl = yl[:5] // the root finder over Fp4 costs ~1 s per value
 	}
-	for _, e := range yl {
-		for i, p := range ocodec.PointsWithY(C, e.y) {
+	found := make([][]ocurve.Pt, len(yl))
+	var wg sync.WaitGroup
+	for i := range yl {
+		wg.Add(1)
+		go func(i int) {
+			defer wg.Done()
+			found[i] = ocodec.PointsWithY(C, yl[i].y)
+		}(i)
+	}
+	wg.Wait()
+	for k, e := range yl {
+		for i, p := range found[k] {
 			if i > 0 && !c.Thorough() {
 				break
 			}
 			add("special:"+e.n, p, r.fm.InSubgroup(p))
+		}
+	}
+	// points of order 3 on the j = 0 curves (a = 0): x = 0 when b is a square, and the roots of x^3 = -4b
+	if F.IsZero(C.A) {
+		var xs []ofield.El
+		xs = append(xs, F.Zero())
+		xs = append(xs, ocodec.RootsOf(F, []ofield.El{F.MulInt(C.B, 4), F.Zero(), F.Zero(), F.One()})...)
+		for i, x := range xs {
+			if y, ok := r.fm.Root(x); ok {
+				p := ocurve.Pt{X: x, Y: y}
+				if !C.Add(C.Double(p), p).Inf {
+					panic("c07: constructed 3-torsion point is not of order 3")
+				}
+				n := "special:order-3(x=0)"
+				if i > 0 {
+					n = "special:order-3(x^3=-4b)"
+				}
+				add(n, p, r.fm.InSubgroup(p))
+				add(n, C.Neg(p), r.fm.InSubgroup(p))
+			}
 		}
 	}
 	// random points of the curve (outside the subgroup when the cofactor is not 1)
@@ -288,6 +350,14 @@ func validPoints(c *mon.Ctx, r *grp, rng *gen.Rng) (pts []namedPt) {
 }
 
 func runPoints(c *mon.Ctx, r *grp, s *slib) {
+	q := &jobQueue{}
+	judge := func(c *mon.Ctx, r *grp, s *slib, es []entry, b []byte, cls string) {
+		b = append([]byte(nil), b...)
+		q.jobs = append(q.jobs, func() {
+			c.Guard(r.name+"/harness/panic", func() string { return cls + " " + hx(b) }, func() { judgeNow(c, r, s, es, b, cls) })
+		})
+	}
+	defer q.run(6)
 	rng := gen.New(c.Seed, "c07/points/"+r.name)
 	es := pointEntries(r, s)
 	fm := r.fm
